@@ -274,6 +274,8 @@ class ListObj(HeapObj):
         self.get = get
         self.fresh = fresh       # constructed in this activation (frame analysis)
         self.elem = elem         # element descriptor used when the list has to be havoc'ed
+        self.tag = None           # free slot for contracts (e.g. the row index of a lazily created row list)
+        self.arr = None           # z3 Array term when the list is array backed and unmodified (identity for list functions)
         self.elems_fresh = False  # every element is a distinct object created for this list (comprehension of fresh values)
 
     @property
@@ -283,6 +285,8 @@ class ListObj(HeapObj):
     def clone(self):
         c = ListObj(None if self.items is None else list(self.items), self.length, self.get, self.fresh, self.elem)
         c.elems_fresh = self.elems_fresh
+        c.arr = self.arr
+        c.tag = self.tag
         return c
 
     def len_term(self):
@@ -451,10 +455,38 @@ def is_stringy(v):
     return isinstance(v, (str, Rope)) or is_strterm(v)
 
 
+str_cat = z3.Function("str_cat", StrSort, StrSort, StrSort)
+str_dec = z3.Function("str_dec", z3.IntSort(), StrSort)
+str_chr = z3.Function("str_chr", z3.IntSort(), StrSort)
+
+
+def rope_term(r):
+    """A built string as a single Str term (uninterpreted concatenation) - used when text is stored in symbolic containers."""
+    ps = rope_of(r).pieces
+    if not ps:
+        return lit("")
+    def one(p):
+        if isinstance(p, str):
+            return lit(p)
+        if isinstance(p, Dec):
+            return str_dec(p.n)
+        if isinstance(p, Chr):
+            return str_chr(p.cp)
+        if z3.is_expr(p):
+            return p
+        raise TypeError(f"piece {p!r} has no term form")
+    t = one(ps[0])
+    for p in ps[1:]:
+        t = str_cat(t, one(p))
+    return t
+
+
 def to_z3(v):
     """Coerce a scalar to a z3 term."""
     if z3.is_expr(v):
         return v
+    if isinstance(v, Rope):
+        return rope_term(v)
     if isinstance(v, bool):
         return z3.BoolVal(v)
     if isinstance(v, int):
